@@ -88,7 +88,29 @@ class Instrument(ast.NodeTransformer):
             return ast.copy_location(ast.Call(func=self._name('__sym_strmod__'), args=[node.left, node.right], keywords=[]), node)
         return node
 
+    _fdepth = 0
+
+    def visit_FunctionDef(self, node):
+        self._fdepth += 1
+        try:
+            self.generic_visit(node)
+        finally:
+            self._fdepth -= 1
+        return node
+
+    visit_AsyncFunctionDef = visit_FunctionDef
+
+    def visit_Lambda(self, node):
+        self._fdepth += 1
+        try:
+            self.generic_visit(node)
+        finally:
+            self._fdepth -= 1
+        return node
+
     def _tick(self, node):
+        if self._fdepth == 0:
+            return      # module-level loops (table initialisation at import time) are not part of any evaluation
         t = ast.Expr(ast.Call(func=self._name('__sym_tick__'), args=[], keywords=[]))
         node.body.insert(0, ast.copy_location(t, node))
 
